@@ -133,9 +133,11 @@ func SetConfigDir(dir string) {
 		code.Eval(&scope, nil) // TBD consider at load-verbose and load-print
 	} else {
 		if os.IsNotExist(err) {
+			verifPoint("config.create:writefile:before", cfgPath)
 			if err = os.WriteFile(cfgPath, []byte(configHeader), 0666); err != nil {
 				panic(err)
 			}
+			verifPoint("config.create:writefile:after", cfgPath)
 		} else {
 			panic(err)
 		}
@@ -376,9 +378,11 @@ func updateConfigFile() {
 		}
 		b = append(b, ")\n"...)
 	}
+	verifPoint("config.update:writefile:before", configFilename)
 	if err := os.WriteFile(configFilename, b, 0666); err != nil {
 		panic(err)
 	}
+	verifPoint("config.update:writefile:after", configFilename)
 }
 
 func defReplFunction() {
